@@ -2,15 +2,21 @@ SPECIFICATION TraceSpec
 CONSTANTS
   Cons = {"s1", "s2"}
   Healthy = {"h"}
+  Other = {"hb"}
   N = 0
   HCap = 1024
   Parts = 1
+  ElemParts = 1
   WsMode = FALSE
+  EnqAcct = FALSE
+  HasDeadline = TRUE
+  Prime = FALSE
   MaxPub = 0
   MaxRead = 0
   MaxStall = 0
   MaxSweep = 0
   MaxLeave = 0
+  MaxPubB = 0
 CONSTRAINT HighWater
 POSTCONDITION Accept
 CHECK_DEADLOCK FALSE
